@@ -121,6 +121,14 @@ def _step(world, op, step_no, known, res: RunResult, focus: Optional[set]) -> bo
     return not stop
 
 
+def _reset_process_state():
+    """Every run starts from the same process-global state (a run must not be able to leak into the next)."""
+    import torch
+
+    torch.set_grad_enabled(True)
+    torch.set_default_dtype(torch.float32)
+
+
 def run_history(engine, seed: int, tier: str, known=None, focus=None, profile=None) -> RunResult:
     from .rng import Rng
 
@@ -129,6 +137,7 @@ def run_history(engine, seed: int, tier: str, known=None, focus=None, profile=No
     res = RunResult(engine.name, seed, scenario, [], [], [], [], {}, {})
     world = None
     try:
+        _reset_process_state()
         world = engine.new_world(scenario)
         for step_no in range(int(scenario["length"])):
             op = world.propose(rng)
@@ -157,6 +166,7 @@ def replay_trace(engine, trace: Dict[str, Any], known=None, focus=None, ops=None
     res = RunResult(engine.name, int(trace.get("seed", 0)), scenario, [], [], [], [], {}, {})
     world = None
     try:
+        _reset_process_state()
         world = engine.new_world(scenario)
         for step_no, op in enumerate(ops):
             res.ops.append(op)
